@@ -6,6 +6,15 @@ ALL = ["C%02d" % i for i in range(1, 21)]
 
 # id -> (category, technique, text, note, design_ref)
 CHECKS = {
+ "C07": ("model_checking", "deviation-bounded stateless depth-first exploration of the real KafkaClient's public API over every small cluster layout, payload order, failing-broker subset and reply order",
+         "All 14 maps of 4 partitions onto <=3 brokers (plus leaderless variants), every ordering of every payload subset (size 1-3) for produce/fetch and size 2 for list-offsets/offset-fetch/offset-commit, broker-agnostic metadata calls cold, warmed-up and partially connected with every shuffle rotation; deviations: per-broker refuse/drop/silent/error, cross-broker reply order, timers overtaking I/O. The oracle reads the wire and the call result: leader/coordinator routing against the latest metadata delivered, one request per broker per call, responses in payload order, exact partition of the input on partial failure, connected-first and try-everyone before KafkaUnavailableError.",
+         "SimCluster is Kafka; <=3 brokers, 4 partitions", "5/C07"),
+ "C11": ("model_checking", "deviation-bounded stateless depth-first exploration of timer/reply races on a warmed-up KafkaClient",
+         "48 configurations (timeout 1 s / 10 s, disconnect_on_timeout on/off, connections open or not, six mixes of 1-3 concurrent calls incl. JoinGroup with its 35 s minimum and an acks=0 produce); each broker answer may be prompt, late (the timer overtakes it and the reply is delivered afterwards) or missing, a connection may never establish, replies in any order; <=4 (quick) / <=5 (thorough) deviations. Oracle on virtual time: every call resolves within its bound, timeouts only at the bound and only without a reply, no timer left armed after completion, late replies change nothing, disconnect-on-timeout drops the connection and re-sends the rest once and in order.",
+         "virtual time only moves through timer events; hung connection attempts end by the endpoint's own 30 s timeout (afkak relies on it)", "5/C11"),
+ "C20": ("model_checking", "deviation-bounded stateless depth-first exploration with close() injectable at every state and every order of the events that follow",
+         "19 configurations (1 and 3 brokers, cold/warmed-up, produce over three brokers, fetch, offset commit with coordinator lookup, metadata loads, a full refresh dropping a broker, version discovery); close() may be issued early at every state after <=1 (quick) / <=2 (thorough) faults, then accept/closed/late-reply/timer events in every order. Oracle: everything pending fails in close(), later calls fail at once, no connection attempt or byte after close, no success after close, every connection ends closed, the close Deferred fires once exactly when the last connection goes, metadata view empty. Findings about operations in their bootstrap phase are listed in known_findings.json.",
+         "SimCluster is Kafka; small scope", "5/C20"),
  "C14": ("model_checking", "deviation-bounded stateless depth-first exploration where the deviations are exactly the failing answers to the consumer's requests (all failure/success words), plus an exhaustive buffer-size grid",
          "Every word of answers {ok, error 6, out-of-range, timeout, drop} with <=3 (quick) / <=5 (thorough) failures over 72 delay/limit/policy/start configurations, and a grid of 75+ (initial, maximum, message size) combinations crossing the 1 MiB rule change; the oracle reads the consumer->client seam, the virtual clock and the wire: retry delay min(init*1.20205^(k-1), max) with reset on success, no request beyond the attempt limit and no start failure without one, out-of-range handled per policy, fetch sizes x16 up to 1 MiB then x2 capped at the maximum, ConsumerFetchSizeTooSmall only when the maximum is too small, big message delivered.",
          "SimCluster; where the attempt limit and the reset policy conflict (out-of-range counted as a failed attempt) either outcome is accepted", "5/C14"),
